@@ -76,6 +76,24 @@ func rewriteMarks(text string) []string {
 
 // Judge checks one program against the property for the given seeds and pass counts.
 func Judge(src drive.Sources, seeds []int64, passes []int) Judgement {
+	return JudgeProgram(src, seeds, passes, false)
+}
+
+// JudgeProgram: layoutFree says that the program's output is known not to depend on the layout of
+// its source text or on the clock (true for generated programs: they print values and the messages
+// of their own throws only; shipped programs may print spans of errors or the time).
+//
+// The baseline (print + reparse + run of the UNtransformed tree) separates what the printer does to
+// the program from what the transformer does to it:
+//   - the printed untransformed tree is REJECTED (or String() panics): every variant is printed by
+//     the same printer, and the property demands that every variant is accepted. The variants are
+//     judged as usual (they are the refuting events); the baseline's state is added to the
+//     explanation.
+//   - it is accepted but BEHAVES differently: for a layout-free program that is again the printer's
+//     doing and the variants are judged as usual; for any other program the difference is
+//     (as far as this monitor can tell) the program observing its own layout or the clock, the
+//     comparison of outputs is meaningless and only panics of Transform are judged.
+func JudgeProgram(src drive.Sources, seeds []int64, passes []int, layoutFree bool) Judgement {
 	j := Judgement{Cover: map[string]bool{}}
 	stage("orig")
 	ao := drive.Analyze(src, "main", true)
@@ -101,22 +119,26 @@ func Judge(src drive.Sources, seeds []int64, passes []int) Judgement {
 	pc, ps, _ := guarded(func() { baseText = ao0.Modules["main"].String() })
 	if pc != "" {
 		j.Baseline = "print-panic:" + pc + ":" + ps
-		j.panicsOnly(src, seeds, passes)
-		return j
+	} else {
+		bsrc := withEntry(src, baseText)
+		bao := drive.Analyze(bsrc, "main", true)
+		if bao.Errors > 0 {
+			msg, cls := firstError(bao)
+			j.Baseline = "rejected:" + cls + " (" + msg + ")"
+		} else {
+			bro := runVM(bao.Modules, bsrc, origBudget*2)
+			if bro.Budget || bro.Effects != j.Orig.Effects || bro.outcomeKey() != j.Orig.outcomeKey() {
+				j.Baseline = "behaviour differs after print+reparse"
+				if !layoutFree {
+					j.panicsOnly(src, seeds, passes)
+					return j
+				}
+			}
+		}
 	}
-	bsrc := withEntry(src, baseText)
-	bao := drive.Analyze(bsrc, "main", true)
-	if bao.Errors > 0 {
-		msg, cls := firstError(bao)
-		j.Baseline = "rejected:" + cls + " (" + msg + ")"
-		j.panicsOnly(src, seeds, passes)
-		return j
-	}
-	bro := runVM(bao.Modules, bsrc, origBudget*2)
-	if bro.Budget || bro.Effects != j.Orig.Effects || bro.outcomeKey() != j.Orig.outcomeKey() {
-		j.Baseline = "behaviour differs after print+reparse"
-		j.panicsOnly(src, seeds, passes)
-		return j
+	baseNote := ""
+	if j.Baseline != "" {
+		baseNote = "; the printed UNtransformed tree fails alike (" + util.Clip(j.Baseline, 160) + "): the fault is in what the printer emits for this program, every variant inherits it"
 	}
 
 	// phase 1 (sequential, deterministic): produce the chains and drop duplicate texts
@@ -129,7 +151,10 @@ func Judge(src drive.Sources, seeds []int64, passes []int) Judgement {
 		ro       runObs
 	}
 	var jobs []*job
-	seen := map[string]bool{baseText: true}
+	seen := map[string]bool{}
+	if j.Baseline == "" {
+		seen[baseText] = true // a variant that is the printed original again shows nothing new
+	}
 	for _, seed := range seeds {
 		stage("chain seed=%d", seed)
 		for _, v := range Chain(src, seed, passes) {
@@ -193,7 +218,7 @@ func Judge(src drive.Sources, seeds []int64, passes []int) Judgement {
 		tag := fmt.Sprintf("seed=%d pass=%d", v.Seed, v.Pass)
 		if jb.rejected {
 			j.Failures = append(j.Failures, Failure{
-				Why:    fmt.Sprintf("variant rejected by the analyzer: %s [%s]", jb.errMsg, tag),
+				Why:    fmt.Sprintf("variant rejected by the analyzer: %s [%s]%s", jb.errMsg, tag, baseNote),
 				Sig:    "variant-rejected:" + jb.errCls,
 				Detail: map[string]any{"seed": v.Seed, "pass": v.Pass, "errors": util.Clip(jb.errAll, 1500), "variant": util.Clip(v.Text, 6000), "source": src},
 			})
@@ -216,12 +241,12 @@ func Judge(src drive.Sources, seeds []int64, passes []int) Judgement {
 				Sig: "behaviour:no-termination", Detail: detail()})
 		case vro.outcomeKey() != j.Orig.outcomeKey():
 			j.Failures = append(j.Failures, Failure{
-				Why: fmt.Sprintf("outcome differs: original %s, variant %s [%s]", j.Orig.Outcome, vro.Outcome, tag),
+				Why: fmt.Sprintf("outcome differs: original %s, variant %s [%s]%s", j.Orig.Outcome, vro.Outcome, tag, baseNote),
 				Sig: "behaviour:outcome:" + outcomeClass(j.Orig) + "-vs-" + outcomeClass(vro), Detail: detail()})
 		case vro.Effects != j.Orig.Effects:
 			j.Failures = append(j.Failures, Failure{
 				Why: fmt.Sprintf("output differs at byte %d: original %q, variant %q [%s]", diffAt(j.Orig.Effects, vro.Effects),
-					util.Clip(j.Orig.Effects, 300), util.Clip(vro.Effects, 300), tag),
+					util.Clip(j.Orig.Effects, 300), util.Clip(vro.Effects, 300), tag) + baseNote,
 				Sig: "behaviour:output", Detail: detail()})
 		}
 	}
